@@ -15,7 +15,7 @@ func init() {
 }
 
 func checkC03(w *World, r *Report) {
-	r.Decides = "C03 is decided in its structural part only: (a) no value written to the apply batch, to the entry results or returned by a command handler derives from the wall clock, randomness, the environment, host identity or a per-replica field, and no map iteration or goroutine feeds those sinks; (b) every field of the apply context that is written per entry and read by the commit after the loop is either assigned on every entry from a non-optional source or assigned from an optional source only when that source is present (so the commit does not depend on where the batch was cut); (c) every command result carries the entry's own index as revision; (d) switching the batch to an indexed one loses nothing; (e) both snapshot formats carry bookkeeping keys together with the data (SST: unfiltered iterator over the prepared snapshot, every pair written; checkpoint: flush before checkpoint, every listed file written)."
+	r.Decides = "C03 is decided in its structural part only: (a) no value written to the apply batch, to the entry results or returned by a command handler derives from the wall clock, randomness, the environment, host identity or a per-replica field, and no map iteration or goroutine feeds those sinks; (b) every field of the apply context that is written per entry and read by the commit after the loop is either assigned on every entry from a non-optional source or assigned from an optional source only when that source is present (so the commit does not depend on where the batch was cut); (c) every command result carries the entry's own index as revision; (d) switching the batch to an indexed one loses nothing; (e) both snapshot formats carry bookkeeping keys together with the data (SST: unfiltered iterator over the prepared snapshot, every pair written; checkpoint: flush before checkpoint, every listed file written); (f) Update applies every entry of an apply call: the loop visits entries[0..len-1] one by one, every iteration crosses the command step, and the loop is never left with success from inside an iteration."
 	r.NotDecided = []string{"equality of two replicas' content (needs Pebble determinism)", "restart and snapshot interleavings beyond the orderings of C04/C08"}
 	r.Assume = []string{"metrics and logging are not replicated state", "the log entries themselves are identical on all replicas (Raft)"}
 	a := w.FsmAnchors()
@@ -29,6 +29,7 @@ func checkC03(w *World, r *Report) {
 	c03Revision(w, r, a, "C03.c", "c-result-revision")
 	c01ReadOwnBatch(w, r, a, "C03.d", "d-indexed-switch")
 	c03Snapshots(w, r, a, "C03.e", "e-snapshots-carry-bookkeeping")
+	applyLoopComplete(w, r, a.Update, a.isHandlerStep, "C03.f", "f-every-entry-applied")
 }
 
 func c03Determinism(w *World, r *Report, a *FsmA) {
